@@ -33,7 +33,16 @@ def run(ctx):
         r = tlc.run(ctx, sd, "Server", cfg=cfg, workers=12, timeout=3000, heap="16g")
         states += r.distinct
         trans += r.generated
-    ctx.log("Server design model: %d states" % states)
+    # the answer queue (server/answer.go): queued / late / direct calls; the variants "basis 0 ready as soon as the drain starts"
+    # and "an entry's return delivered right after the entry" must violate the ordering invariants (controls)
+    ra = tlc.run(ctx, sd, "MCAnswerQueue", cfg="AnswerQueue_ok.cfg", workers=4, timeout=900)
+    states += ra.distinct
+    trans += ra.generated
+    for cfg, want in (("AnswerQueue_readyearly.cfg", "OrderOnResult"), ("AnswerQueue_returnearly.cfg", "OrderOnEntry")):
+        rb = tlc.run(ctx, sd, "MCAnswerQueue", cfg=cfg, workers=1, timeout=600, allow_violation=True)
+        if rb.invariant != want:
+            raise Inconclusive("non-vacuity control %s: expected a violation of %s, got %s" % (cfg, want, rb.invariant))
+    ctx.log("Server design model: %d states (incl. AnswerQueue: %d; its two variants violate OrderOnResult / OrderOnEntry)" % (states, ra.distinct))
     rng = random.Random(ctx.seed)
     all_scripts, r1 = scripts(ctx, sd, 3, 1, 6, False, "a")
     s2, r2 = scripts(ctx, sd, 3, 2, 7 if not ctx.quick else 6, True, "b")
